@@ -404,7 +404,63 @@ func genCred(rng *rand.Rand, uni bool) cred {
 	return cred{u, genPassword(rng), d, w}
 }
 
+// sharedChallenge: one parsed CHALLENGE, read by several goroutines that each build their own
+// AUTHENTICATE from it (building one reads the challenge; nobody changes it).
+func sharedChallenge() {
+	const G = 8
+	rng := r.Rand("shared-challenge")
+	for run := 0; run < r.Pick(60, 600); run++ {
+		uni := run%3 != 0
+		c := genChallenge(rng, uni, run%2 == 0, true, true, 4+rng.IntN(12), 2+rng.IntN(8), 0)
+		if run%5 == 0 { // a long target info: more to walk
+			for k := 0; k < 30; k++ {
+				c.pairs = append(c.pairs, avPair{uint16(0x200 + k), gen.Bytes(rng, 40+rng.IntN(200))})
+			}
+			c.spec.TargetInfo = encodeAV(c.pairs)
+		}
+		raw := c.spec.build()
+		ch, err := ntlm.ParseChallengeMessage(append([]byte{}, raw...))
+		if err != nil || ch == nil {
+			continue // judged in the single-caller phases
+		}
+		creds := make([]cred, G)
+		for g := range creds {
+			creds[g] = genCred(rng, uni)
+		}
+		var wg sync.WaitGroup
+		start := make(chan struct{})
+		for g := 0; g < G; g++ {
+			wg.Add(1)
+			go func(k cred) {
+				defer wg.Done()
+				<-start
+				for i := 0; i < 3; i++ {
+					var msg []byte
+					var err error
+					p, v, st := mon.Guard(func() { msg, err = ntlm.CreateAuthenticateMessage(ch, k.user, k.pw, k.domain, k.ws) })
+					acs := c.caseMap(raw)
+					acs["cred"], acs["goroutines_sharing_the_challenge"] = fmt.Sprintf("%q", k), G
+					switch {
+					case p:
+						r.Violation("ntlm.CreateAuthenticateMessage:shared-challenge:panic:"+mon.PanicClass(v), fmt.Sprintf("panic %v at %s", v, mon.TopLibFrame(st)), acs)
+					case err != nil:
+						r.Violation("ntlm.CreateAuthenticateMessage:shared-challenge:error", fmt.Sprint(err), acs)
+					default:
+						acs["message"] = hxCase(msg)
+						checkAuthenticateBytes("ntlm.CreateAuthenticateMessage:shared-challenge", msg, c.spec.Flags, c.spec.SC, k.user, k.pw, k.domain, k.ws, acs)
+					}
+				}
+			}(creds[g])
+		}
+		close(start)
+		wg.Wait()
+		r.Eval(G * 3)
+		r.Nontrivial(fmt.Sprintf("shared-challenge|%d", run%40))
+	}
+}
+
 func concurrent() {
+	sharedChallenge()
 	const G = 8
 	per := r.Pick(40, 250)
 	rounds := r.Pick(5, 16)
